@@ -56,14 +56,15 @@ def episode(rng, scratch, res, idx, force=None):
         w = World(d, contents, docs, depth=depth, width=width, algo=algo)
         others = ["q1", "q2", "main2"]
         ops = [{"op": "store", "pid": "main", "content": "main", "kind": kind, "offset": offset}]
-        hist_len = rng.randint(2, 8)
+        hist_len = rng.randint(2, 10)
         for _ in range(hist_len):
             if rng.random() < 0.25:
                 ops.append(random_meta_op(rng, others + ["main"], [None, "f1"], ["d1", "d2"]))
                 if ops[-1]["op"] == "dmeta" and ops[-1]["pid"] == "main":
                     ops[-1]["pid"] = "q1"
             else:
-                ops.append(random_object_op(rng, others, ["main", "other", "third"], kinds=("path", "file", "bytesio")))
+                # sharing is the hostile case: other pids store, tag and delete the SAME content most of the time
+                ops.append(random_object_op(rng, others, ["main", "main", "main", "other", "third"], kinds=("path", "file", "bytesio")))
             if rng.random() < 0.4:
                 ops.append({"op": "retrieve", "pid": "main"})
         ops.append({"op": "retrieve", "pid": "main"})
@@ -88,7 +89,9 @@ def episode(rng, scratch, res, idx, force=None):
                     bad = bad or f
                 else:
                     res.foreign[f.tag] = res.foreign.get(f.tag, 0) + 1
-            if findings:
+            # the pid under observation must stay retrievable whatever happens to the others: go on after
+            # observations that belong to other properties, stop at the first one that is C01's own
+            if bad:
                 break
         res.count("retrieves_checked", 0)
         res.evaluations += 1
